@@ -23,7 +23,8 @@ Inductive pval :=
 | VStr (s : string)       (* a Python str *)
 | VInt (z : Z)            (* a Python int (not bool) *)
 | VBool (b : bool)        (* a Python bool *)
-| VFloat (repr : string). (* a Python float, by its repr *)
+| VFloat (repr : string)  (* a Python float, by its repr *)
+| VNone.                  (* Python None *)
 
 Definition pval_eqb (a b : pval) : bool :=
   match a, b with
@@ -31,6 +32,7 @@ Definition pval_eqb (a b : pval) : bool :=
   | VInt x, VInt y => Z.eqb x y
   | VBool x, VBool y => Bool.eqb x y
   | VFloat x, VFloat y => String.eqb x y
+  | VNone, VNone => true
   | _, _ => false
   end.
 
@@ -136,15 +138,15 @@ Fixpoint jointoks (sep : string) (l : list (list tok)) : list tok :=
   | x :: r => x ++ KTxt sep :: jointoks sep r
   end.
 
-(* what the collector stores for a payload: isinstance(value, (int, float)) -> the value itself (bool is an int);
-   otherwise get_value_sql(quote_char=..) WITHOUT secondary_quote_char: the bare text, so None becomes the
-   string "null" and Decimal/date/UUID become their str().  [isf] tells which raw payload texts are floats. *)
+(* what the collector stores for a payload: `value is None or isinstance(value, (int, float))` -> the value itself
+   (bool is an int); otherwise get_value_sql(quote_char=..) WITHOUT secondary_quote_char: the bare text, so
+   Decimal/date/UUID become their str().  [isf] tells which raw payload texts are floats. *)
 Definition coll (isf : string -> bool) (l : lit) : pval :=
   match l with
   | LStr s => VStr s
   | LInt z => VInt z
   | LBool b => VBool b
-  | LNull => VStr "null"
+  | LNull => VNone
   | LRaw t => if isf t then VFloat t else VStr t
   end.
 
@@ -288,8 +290,7 @@ with vals_ok_w (chk : lit -> bool) (sqt : bool) (l : wlist) {struct l} : bool :=
 (* tokens compared BY VALUE: a literal is identified with the Python value it denotes *)
 Inductive vtok :=
 | VT (s : string)          (* any non-literal token, by its text *)
-| VV (v : pval)            (* a literal denoting the str / int / bool / float v *)
-| VNullKw                  (* the keyword null *)
+| VV (v : pval)            (* a literal denoting the str / int / bool / float v, or the keyword null denoting None *)
 | VNum (txt : string).     (* a numeric literal that is not a Python int/float (Decimal, ...) *)
 
 Definition lit_value (isf : string -> bool) (l : lit) : vtok :=
@@ -297,7 +298,7 @@ Definition lit_value (isf : string -> bool) (l : lit) : vtok :=
   | LStr s => VV (VStr s)
   | LInt z => VV (VInt z)
   | LBool b => VV (VBool b)
-  | LNull => VNullKw
+  | LNull => VV VNone
   | LRaw t => if isf t then VV (VFloat t) else VNum t
   end.
 
@@ -332,7 +333,7 @@ Definition stored_value (isf : string -> bool) (t : tok) : vtok :=
 
 (* literals for which "stored value" and "value denoted inline" coincide *)
 Definition lit_exact (isf : string -> bool) (l : lit) : bool :=
-  match l with LNull => false | LRaw t => isf t | _ => true end.
+  match l with LRaw t => isf t | _ => true end.
 Definition tok_exact (isf : string -> bool) (t : tok) : bool :=
   match t with KLit l _ => lit_exact isf l | _ => true end.
 
@@ -342,10 +343,9 @@ Definition tok_exact (isf : string -> bool) (t : tok) : bool :=
 Inductive item :=
 | IText (s : string)
 | ITerm (c : ctx) (t : term)
-| IWrap (c : ctx) (t : term).   (* ValueWrapper(term): what QueryBuilder.set builds when the value is itself a Term *)
+| IWrap (c : ctx) (t : term).   (* ValueWrapper(term): what QueryBuilder.set builds when the value is itself a Term;
+                                   rendered as the term itself (since pypika c10cc28) *)
 
-Definition set_sq (c : ctx) (s : option string) : ctx :=
-  {| q := q c; sq := s; aq := aq c; askw := askw c; dia := dia c; wa := wa c; wn := wn c; subq := subq c; subc := subc c |}.
 
 Fixpoint render_items (isf : string -> bool) (m : option style) (l : list item) (st : pstate) : tres :=
   match l with
@@ -355,26 +355,14 @@ Fixpoint render_items (isf : string -> bool) (m : option style) (l : list item) 
       tbind (render_t isf m c t st) (fun a s1 =>
       tbind (render_items isf m r s1) (fun b s2 => ret (a ++ b) s2))
   | IWrap c t :: r =>
-      match m with
-      | None =>
-          (* get_formatted_value(value: Term) = value.get_sql(all keyword arguments) *)
-          tbind (render_t isf None c t st) (fun a s1 =>
-          tbind (render_items isf m r s1) (fun b s2 => ret (a ++ b) s2))
-      | Some sty =>
-          (* not an int/float: the collector receives get_value_sql(quote_char=.., remaining kwargs), i.e. the SQL TEXT
-             of the wrapped term, rendered without collector and without secondary_quote_char (so its default) *)
-          match render_t isf None (set_sq c (Some "'")) t [] with
-          | Err e => Err e
-          | Ok (ts, _) =>
-              let ph := ph_text sty (List.length st) in
-              tbind (render_items isf m r (collect sty st (param_key sty ph) (VStr (flatten ts)))) (fun b s2 =>
-              ret (KAuto (List.length st) ph :: b) s2)
-          end
-      end
+      (* a wrapped term is an expression, not a value: ValueWrapper.get_sql renders it with the same keyword arguments,
+         collector included, and adds no placeholder of its own *)
+      tbind (render_t isf m c t st) (fun a s1 =>
+      tbind (render_items isf m r s1) (fun b s2 => ret (a ++ b) s2))
   end.
 
 Definition item_ok (chk : lit -> bool) (i : item) : bool :=
-  match i with IText _ => true | ITerm c t => vals_ok chk (truthy_ostr (sq c)) t | IWrap _ _ => false end.
+  match i with IText _ => true | ITerm c t | IWrap c t => vals_ok chk (truthy_ostr (sq c)) t end.
 
 (* a SELECT builder (generic Query / SQLLiteQuery): one FROM item, joins with ON, WHERE, GROUP BY, HAVING, ORDER BY,
    LIMIT/OFFSET; sub-queries in FROM, in a join, and as the container of IN *)
